@@ -24,7 +24,7 @@ CHECKS = {
  "C02": ("exploration", "property-based testing + exhaustive small-matrix enumeration: SortVoting vs subset-DP optimal assignment; thorough tier adds coverage-guided fuzzing (libFuzzer bytes drive the same proptest strategies, same oracle)",
          "Level A: the voting engine on every weight matrix of shape <=3x3 over a grid straddling the threshold (exhaustive) and on random matrices up to 8x8 with shuffled arrival order; the result must be one-to-one over reported pairs, never below the gate, and its total must equal the DP optimum with 'unmatched = threshold'.",
          "Level A totals compared within rows*(2e-6 + 4e-7*max|w|). Level B: Sort / BatchSort histories; before every call the weights are recomputed in f64 from the observable state (posterior boxes, raw Kalman state via the guarded accessor) and the call's continuations must be gated pairs of live tracks with optimal total; calls with a decision within 1e-4 of a threshold are band.", "3/C02"),
- "C05": ("exploration", "differential property testing under forced worker schedules: 1 shard/free schedule vs k shards/planned interleavings of the Distances commands",
+ "C05": ("exploration", "differential property testing under forced worker schedules: 1 shard/free schedule vs k shards/planned interleavings of the Distances commands; arrival-order metamorphic check of the voting engine (thorough tier also by coverage-guided fuzzing: libFuzzer bytes drive the same proptest strategy, same oracle)",
          "Tie-free generated histories x shard count 1..8 x a plan per predict call that totally orders the Distances commands of all shard workers (gates on the command begin/end schedule points) plus delays; records must equal the 1-shard reference including ids (simple trackers) or up to renaming (batch trackers); wasted/idle sets equal. Sub-check voting-order: weight tables whose best assignment is unique by 2e-4 .. 5e-2 reach the Hungarian voting engine in two arrival orders - same winners, equal to the unique optimum.",
          "Hook-granularity schedule control (command begin/end), bounded gate waits; comparison cut at calls with a decision margin below 1e-4 (f64 shadow).", "3/C05"),
  "C06": ("exploration", "differential property testing under forced dispatch/voting orders: batch tracker vs simple tracker per scene; result-shape invariants; watchdog for completion",
@@ -102,7 +102,7 @@ def main():
         "engines": [
             {"name": "sv-harness", "path": "/verif/harness", "serves_properties": [c["property_id"] for c in checks],
              "kind_free_text": "Rust crate: proptest 1.11 TestRunner (fixed seeds from VERIF_SEED, shrinking, JSON replay), exhaustive enumerators, independent f64 oracles"},
-            {"name": "sv-fuzz", "path": "/verif/fuzz", "serves_properties": ["C02", "C07", "C08", "C09", "C11", "C14", "C16", "C17", "C19", "C20"],
+            {"name": "sv-fuzz", "path": "/verif/fuzz", "serves_properties": ["C02", "C05", "C07", "C08", "C09", "C11", "C14", "C16", "C17", "C19", "C20"],
              "kind_free_text": "cargo-fuzz / libFuzzer binary `props` (thorough tier only, started by ./run <ID> thorough): input bytes are the random stream of the harness's proptest strategies (PassThrough RNG, vendored proptest with one marked change), every input judged by the same oracle, failing input written as a decoded JSON replay"},
             {"name": "hypothesis-c18", "path": "/verif/py", "serves_properties": ["C18"],
              "kind_free_text": "Hypothesis 6.168 (python3-vt) script generator and Python executor; Rust side = `check C18 --child pydriver`"},
